@@ -36,6 +36,15 @@ MCTries ==
     ST("a1", "r1", Good("k1", "a1", "r1", "l1"), "malformed"), ST("a1", "r1", [present |-> TRUE, signer |-> "", over |-> <<"", "", "">>, alg |-> "", cert |-> "", wellformed |-> TRUE], "missingfields") } \cup
   { [m |-> "createaccount", a |-> a, pk |-> pk] : a \in {"a1", "a2", "malformed"}, pk \in {"pk1", "malformed"} }
 
+\* the wider universe of the trace validation (spec/trace/Trace_Signature.tla)
+TrAddrs == {"a1", "a2", "a3"}
+TrRefs == {"r1", "r2", "r3", "r4"}
+TrLinks == {"l1", "l2", "l3", "l4"}
+TrKeys == {"k1", "k2"}
+TrKeyType == [k \in TrKeys |-> IF k = "k1" THEN "ecdsa" ELSE "rsa"]
+TrVarKeys == {"r1^U", "r1^S", "r2^U", "a1:r1^K", "a3:r2^K"}
+ASSUME PrintT(ToJson([trmeta |-> [Addrs |-> TrAddrs, Refs |-> TrRefs, Links |-> TrLinks, Keys |-> TrKeys, VarKeys |-> TrVarKeys]]))
+
 ASSUME PrintT(ToJson([meta |-> [Addrs |-> MCAddrs, Refs |-> MCRefs, Links |-> MCLinks, Keys |-> MCKeys, VarKeys |-> MCVarKeys]]))
 SID(v) == <<TLCFP(v), TLCFP(<<v, 7>>)>>
 NZ(f, z) == [k \in { x \in DOMAIN f : f[x] # z } |-> f[k]]
